@@ -438,18 +438,15 @@ GENE_FIELDS = ["gene_id", "gene_symbol", "gene_type", "locus_tag", "qualifiers"]
 
 def compare_parsed(parsed_dict, want, src_coll):
     """clauses `parse.<field>[:<diagnosis>]`"""
-    viol = []
     def tkey(t):
         return (list(t["exon_starts"]), list(t["exon_ends"]), t["strand"], list(t["cds_starts"] or []),
                 t.get("transcript_id") or "")
 
     def gkey(g):
         return sorted(tkey(t) for t in g["transcripts"])
-    got = sorted(parsed_dict["genes"], key=gkey)
-    want = sorted(want, key=gkey)
-    if len(got) != len(want):
-        return [f"parse.gene-count:{len(got)}!={len(want)}"]
-    for gg, wg in zip(got, want):
+
+    def gene_diff(gg, wg):
+        viol = []
         for f in GENE_FIELDS:
             a, b = gg.get(f), wg[f]
             if f == "gene_id" and b == "<ID>":
@@ -460,23 +457,51 @@ def compare_parsed(parsed_dict, want, src_coll):
                 viol += diff_quals("gene", a, b)
             elif a != b:
                 viol.append(f"parse.{f}")
-        gt = sorted(gg["transcripts"], key=tkey)
-        if len(gt) != len(wg["transcripts"]):
-            viol.append("parse.transcript-count")
-            continue
-        for a, b in zip(gt, sorted(wg["transcripts"], key=tkey)):
-            for f in TX_FIELDS:
-                x, y = a.get(f), b[f]
-                if isinstance(x, tuple):
-                    x = list(x)
-                if f == "qualifiers":
-                    viol += diff_quals("transcript", x, y)
-                elif x != y:
-                    if f == "transcript_type" and x == wg["gene_type"]:
-                        viol.append("parse.transcript_type:gene-biotype-returned")
-                    else:
-                        viol.append(f"parse.{f}")
-    return sorted(set(viol))
+        if len(gg["transcripts"]) != len(wg["transcripts"]):
+            return viol + ["parse.transcript-count"]
+        return viol + _best_pairing(sorted(gg["transcripts"], key=tkey), sorted(wg["transcripts"], key=tkey), tkey,
+                                    lambda a, b: _tx_diff(a, b, wg["gene_type"]))
+    got = sorted(parsed_dict["genes"], key=gkey)
+    want = sorted(want, key=gkey)
+    if len(got) != len(want):
+        return [f"parse.gene-count:{len(got)}!={len(want)}"]
+    return sorted(set(_best_pairing(got, want, gkey, gene_diff)))
+
+
+def _tx_diff(a, b, gene_type):
+    out = []
+    for f in TX_FIELDS:
+        x, y = a.get(f), b[f]
+        if isinstance(x, tuple):
+            x = list(x)
+        if f == "qualifiers":
+            out += diff_quals("transcript", x, y)
+        elif x != y:
+            if f == "transcript_type" and x == gene_type:
+                out.append("parse.transcript_type:gene-biotype-returned")
+            else:
+                out.append(f"parse.{f}")
+    return out
+
+
+def _best_pairing(got, want, key, diff):
+    """Items are paired by `key` (coordinates + id); items that agree on the whole key (possible when identifiers
+    are missing) are paired the way that explains most: the parser does not promise an order among them."""
+    import itertools
+    out = []
+    i = 0
+    while i < len(want):
+        j = i
+        while j < len(want) and key(want[j]) == key(want[i]):
+            j += 1
+        gw, gg = want[i:j], got[i:j]
+        if len(gw) == 1 or len(gw) > 5:
+            cand = [sum((diff(a, b) for a, b in zip(gg, gw)), [])]
+        else:
+            cand = [sum((diff(a, b) for a, b in zip(perm, gw)), []) for perm in itertools.permutations(gg)]
+        out += min(cand, key=lambda v: (len(set(v)), sorted(set(v))))
+        i = j
+    return out
 
 
 BIOCANTOR_KEYS = ["transcript_id", "transcript_name", "transcript_biotype", "transcript_type", "protein_id",
